@@ -41,6 +41,12 @@ pub(crate) fn kick_fd<V: VringT<M>>(v: &V) -> Option<RawFdT> {
     v.get_ref().get_kick().as_ref().map(|k| k.as_raw_fd())
 }
 pub(crate) type RawFdT = std::os::unix::io::RawFd;
+pub(crate) fn is_started<V: VringT<M>>(v: &V) -> bool {
+    v.get_ref().get_queue().ready()
+}
+pub(crate) fn is_enabled<V: VringT<M>>(v: &V) -> bool {
+    v.get_ref().is_enabled()
+}
 pub(crate) fn is_active<V: VringT<M>>(v: &V) -> bool {
     let s = v.get_ref();
     s.get_queue().ready() && s.is_enabled()
